@@ -209,6 +209,29 @@ func C10(c *core.Ctx) {
 		_ = os.WriteFile(filepath.Join(wd, "inc.yaml"), []byte(doc), 0o644)
 		placements["included"] = []namedDoc{{Name: filepath.Join(wd, "main.yaml"), Content: "include:\n  - inc.yaml\nservices:\n  extra: {image: img}\n"}}
 		names := []string{"single", "override", "included"}
+		// extended: service a's whole definition (with the edit) sits on a base service that a extends
+		if pd, ok := plainOf(cs["doc"]).(map[string]interface{}); ok {
+			if svcs, ok := pd["services"].(map[string]interface{}); ok {
+				if a, ok := svcs["a"].(map[string]interface{}); ok {
+					if _, has := a["extends"]; !has {
+						cp := map[string]interface{}{}
+						for k, v := range pd {
+							cp[k] = v
+						}
+						ns := map[string]interface{}{}
+						for k, v := range svcs {
+							ns[k] = v
+						}
+						ns["a0"] = a
+						ns["a"] = map[string]interface{}{"extends": map[string]interface{}{"service": "a0"}}
+						cp["services"] = ns
+						b, _ := json.Marshal(cp)
+						placements["extended"] = []namedDoc{{Name: filepath.Join(wd, "ext-main.yaml"), Content: string(b)}}
+						names = append(names, "extended")
+					}
+				}
+			}
+		}
 		if f2 := asMap(cs["fragment2"]); asStr(f2["t"]) != "n" && f2 != nil {
 			// the edit takes two later files: as files, and as documents of one file (the single document is the merged result)
 			frag2 := yamlOf(cs["fragment2"])
